@@ -29,7 +29,7 @@ def gen(seed, run, tier='quick'):
     rng = core.rng_for(seed, PROP, run)
     n_cur = rng.choice([2, 3, 3, 4])
     codes = rng.sample(CODES, n_cur)
-    n_mc = rng.choice([2, 3, 3, 4])
+    n_mc = rng.choice([3, 3, 3, 4])
     mconvs = []
     used = set()
     for k in range(n_mc):
@@ -56,7 +56,7 @@ def gen(seed, run, tier='quick'):
             dict(mconvs[-1])
         if len(mconvs) < 4:
             mconvs.append(dict(mconvs[rng.randrange(len(mconvs))]))
-    n_g = rng.choice([2, 3, 3])
+    n_g = 3
     gconvs = []
     for k in range(n_g):
         kind = rng.choice(['stub', 'stub', 'table'])
@@ -98,6 +98,40 @@ def gen(seed, run, tier='quick'):
     glist = []
     kinds = list(w)
     weights = [w[k] for k in kinds]
+    # systematic part: run i starts with the (i mod N)-th of all N op-symbol
+    # sequences of length <= 3 that the grammar allows, so that a batch of N
+    # runs covers every short prefix; the rest of the history is random
+    prefixes = _prefix_list()
+    for sym in _split(prefixes[run % len(prefixes)]):
+        kind, arg = sym[0], sym[1]
+        if kind == 'E':
+            toks.append(['enter', int(arg) % n_mc])
+            mstack.append(int(arg) % n_mc)
+            depth += 1
+        elif kind == 'R':
+            toks.append(['reg', int(arg) % n_mc])
+            mstack.append(int(arg) % n_mc)
+        elif kind == 'X':
+            toks.append(['rem', int(arg) % n_mc])
+            if mstack and mstack[-1] == int(arg) % n_mc:
+                mstack.pop()
+        elif kind == 'B':
+            toks.append(['regbad', rng.randrange(3)])
+        elif kind == 'g':
+            toks.append(['greg', int(arg) % n_g])
+        elif kind == 'x':
+            toks.append(['grem', int(arg) % n_g])
+        elif kind == 'L':
+            toks.append(['leave'])
+            depth -= 1
+            if mstack:
+                mstack.pop()
+        elif kind == 'U':
+            a, b = rng.sample(range(n_cur), 2)
+            toks.append(['unsafe', a, b, 1])
+        elif kind == '!':
+            toks.append(['raise', int(arg)])
+    n_tok = max(n_tok, len(toks))
     while len(toks) < n_tok:
         k = rng.choices(kinds, weights)[0]
         if k == 'enter':
@@ -733,6 +767,21 @@ REAL = ["quantity (Money, MoneyMeta, MoneyConverter, QuantityMeta, Quantity."
 STUBS = ["system date (SimClock via date shim; constant in this check)",
          "user-supplied generic converters (scripted callables)",
          "with-block bodies (the simulator's interpreter)"]
+
+
+_PREFIXES = None
+
+
+def _prefix_list():
+    global _PREFIXES
+    if _PREFIXES is None:
+        _PREFIXES = sorted(_possible_prefixes(3),
+                           key=lambda p: (len(p), p))
+    return _PREFIXES
+
+
+def _split(p):
+    return [p[i:i + 2] for i in range(0, len(p), 2)]
 
 
 def _possible_prefixes(max_len, max_depth=MAX_DEPTH):
